@@ -1,5 +1,203 @@
 package main
 
-// thorough is filled in later (second configuration + calibration).
+import (
+	"encoding/json"
+	"fmt"
+	"io"
+	"os"
+	"os/exec"
+	"path/filepath"
+	"sort"
+	"strings"
+	"sync"
+)
+
+// deep is set in the thorough tier: scenario evaluations use larger bounds
+// (longer relationship sequences, more loop iterations per path).
+var deep bool
+
+// thorough adds to a finished quick analysis:
+//  1. a second configuration: the same check on the program type-checked and
+//     built for GOARCH=386 (32-bit int/uint, build-tagged files); obligations
+//     violated only there are reported with the suffix @386;
+//  2. calibration of the checker itself: every seeded variant kept under
+//     <verif>/seeded for this property is applied to a scratch copy of the
+//     current tree and the quick check must report a violation there. A miss is
+//     a checker error (exit 2, no VIOLATION line): the property verdict for the
+//     current tree is not affected, but the check is no longer known to be able
+//     to see that breakage. Variants whose patch no longer applies are skipped
+//     and listed.
 func thorough(id string, f checkFunc, p *Prog, r *Report, repo, verif string, extra map[string]any, noCal bool) {
+	// --- second configuration
+	p2, err := loadProg(repo, "386")
+	if err != nil {
+		r.fail("GOARCH=386 configuration: %v", err)
+	} else {
+		r2 := newReport(id, "thorough")
+		func() {
+			defer func() {
+				if e := recover(); e != nil {
+					r.fail("GOARCH=386 configuration: checker panic: %v", e)
+				}
+			}()
+			f(p2, r2)
+		}()
+		violatedHost := map[string]bool{}
+		for _, o := range r.obs {
+			if o.Status == "violated" {
+				violatedHost[o.Key] = true
+			}
+		}
+		n386, bad386 := 0, 0
+		for _, o := range r2.obs {
+			n386++
+			if o.Status == "violated" && !violatedHost[o.Key] {
+				bad386++
+				o.Key += "@386"
+				o.Detail = "under GOARCH=386: " + o.Detail
+				r.obs = append(r.obs, o)
+			}
+		}
+		for _, b := range r2.broken {
+			r.fail("GOARCH=386 configuration: %s", b)
+		}
+		extra["second_configuration"] = map[string]any{"goarch": "386", "obligations": n386, "violated_only_there": bad386}
+	}
+
+	// --- calibration
+	if noCal {
+		return
+	}
+	seedDir := filepath.Join(verif, "seeded")
+	entries, _ := os.ReadDir(seedDir)
+	type variant struct{ name, patch string }
+	var vs []variant
+	for _, e := range entries {
+		if !e.IsDir() {
+			continue
+		}
+		b, err := os.ReadFile(filepath.Join(seedDir, e.Name(), "meta.json"))
+		if err != nil {
+			continue
+		}
+		var m struct {
+			Property string `json:"property"`
+		}
+		if json.Unmarshal(b, &m) != nil || m.Property != id {
+			continue
+		}
+		vs = append(vs, variant{e.Name(), filepath.Join(seedDir, e.Name(), "patch.diff")})
+	}
+	sort.Slice(vs, func(i, j int) bool { return vs[i].name < vs[j].name })
+	exe, err := os.Executable()
+	if err != nil {
+		r.fail("calibration: cannot locate the checker executable: %v", err)
+		return
+	}
+	type result struct {
+		name, outcome string
+	}
+	results := make([]result, len(vs))
+	var wg sync.WaitGroup
+	sem := make(chan struct{}, 4)
+	for i, v := range vs {
+		wg.Add(1)
+		go func(i int, v variant) {
+			defer wg.Done()
+			sem <- struct{}{}
+			defer func() { <-sem }()
+			results[i] = result{v.name, calibrateOne(exe, id, repo, verif, v.patch)}
+		}(i, v)
+	}
+	wg.Wait()
+	cal := map[string]string{}
+	detected, skipped := 0, 0
+	for _, res := range results {
+		cal[res.name] = res.outcome
+		switch {
+		case res.outcome == "detected":
+			detected++
+		case strings.HasPrefix(res.outcome, "skipped"):
+			skipped++
+		default:
+			r.fail("calibration: the seeded variant %s is not reported by the check (%s)", res.name, res.outcome)
+		}
+	}
+	extra["calibration"] = map[string]any{"variants": len(vs), "detected": detected, "skipped": skipped, "outcomes": cal}
+	r.count("calibration_variants_detected", detected)
+}
+
+func calibrateOne(exe, id, repo, verif, patch string) string {
+	dir, err := os.MkdirTemp("", "verifcal-")
+	if err != nil {
+		return "skipped: " + err.Error()
+	}
+	defer os.RemoveAll(dir)
+	dst := filepath.Join(dir, "repo")
+	if err := copyTree(repo, dst); err != nil {
+		return "skipped: copy failed: " + err.Error()
+	}
+	vdir := filepath.Join(dir, "verif")
+	_ = os.MkdirAll(vdir, 0o755)
+	if b, err := os.ReadFile(filepath.Join(verif, "known_findings.json")); err == nil {
+		_ = os.WriteFile(filepath.Join(vdir, "known_findings.json"), b, 0o644)
+	}
+	cmd := exec.Command("patch", "-p1", "-s", "-f", "-i", patch)
+	cmd.Dir = dst
+	if out, err := cmd.CombinedOutput(); err != nil {
+		return "skipped: the patch does not apply to the current tree (" + strings.TrimSpace(firstLine(string(out))) + ")"
+	}
+	c2 := exec.Command(exe, "-prop", id, "-tier", "quick", "-repo", dst, "-verif", vdir)
+	c2.Env = os.Environ()
+	out, err := c2.CombinedOutput()
+	code := 0
+	if ee, ok := err.(*exec.ExitError); ok {
+		code = ee.ExitCode()
+	} else if err != nil {
+		return "skipped: " + err.Error()
+	}
+	if code == 1 && strings.Contains(string(out), "VIOLATION property="+id) {
+		return "detected"
+	}
+	if code == 2 && strings.Contains(string(out), "load:") {
+		return "skipped: the patched tree does not type-check"
+	}
+	return fmt.Sprintf("MISSED (exit %d)", code)
+}
+
+func firstLine(s string) string {
+	if i := strings.IndexByte(s, '\n'); i >= 0 {
+		return s[:i]
+	}
+	return s
+}
+
+func copyTree(src, dst string) error {
+	return filepath.Walk(src, func(path string, info os.FileInfo, err error) error {
+		if err != nil {
+			return err
+		}
+		rel, _ := filepath.Rel(src, path)
+		if info.IsDir() {
+			if info.Name() == ".git" {
+				return filepath.SkipDir
+			}
+			return os.MkdirAll(filepath.Join(dst, rel), 0o755)
+		}
+		if !info.Mode().IsRegular() {
+			return nil
+		}
+		in, err := os.Open(path)
+		if err != nil {
+			return err
+		}
+		defer in.Close()
+		out, err := os.Create(filepath.Join(dst, rel))
+		if err != nil {
+			return err
+		}
+		defer out.Close()
+		_, err = io.Copy(out, in)
+		return err
+	})
 }
